@@ -4,7 +4,10 @@ from ..check import Slice, Query
 from ..summary import Item, items, is_ok, bv
 
 ID = 'C02'
-ENGINE_B = {'template': 't_nest', 'kinds': ['layout_', 'enum_'], 'max_quick': 12, 'max_thorough': 64}
+# fixed witnesses: an over-aligned single-field inner type embedded by value and as array element; a packed inner type
+ENGINE_B = {'template': 't_nest', 'kinds': ['layout_', 'enum_'], 'max_quick': 12, 'max_thorough': 64,
+            'fixed': [[8, 4, 4, 4, 0, 0, 1, 16, 0, 0, 1, 2, 0, 0, 12, 0, 0, 1, 16, 0], [8, 4, 4, 4, 0, 0, 1, 16, 0, 3, 2, 2, 0, 0, 12, 0, 0, 1, 16, 0],
+                      [8, 2, 2, 3, 0, 0, 0, 0, 1, 0, 1, 1, 0, 0, 0, 0, 0, 0, 0, 0]]}
 BASES = [('u8', 1), ('u16', 2), ('u32', 4), ('u64', 8), ('i8', 1), ('i16', 2), ('i32', 4), ('i64', 8)]
 EXPLANATION = ('Template t_nest: an extern type X with symbolic size/alignment, an inner type I { x: [X; ci] } with optional size/align/'
                'packed, an enum over every integer base, and an outer type O { f0: I | [I; co] | *const I, e: En, _: unknown<pad> } '
